@@ -385,6 +385,68 @@ example : (run 0 r2 (flat sched2)).g.path = [2, 6] ∧
 example : (run 0 r2 (flat sched2)).msgs.map (fun r => (r.mid, r.author, r.state, r.epoch, r.msgTs, r.tok)) =
     [(11, 3, 1, 2, 102, 6), (10, 0, 1, 2, 101, 5), (13, 0, 1, 3, 104, 8)] := by decide
 
+/-- **late_message_kept_partial** (the past-epoch window at the level of histories).  A message that reaches the client
+    LATE — the client has moved on, but the state the message was created in is a retained past state
+    (`past.contains e.path`, at most `max_past_epochs` back) and the outer layer still opens it (its exporter secret is one
+    of the 5 past epochs' the outer layer looks at) — is stored under the RECEIVER's current epoch (`app_deliver_stored`),
+    and then survives EVERY later level-by-level schedule with slots that starts there, as the only row of its id, valid and
+    unchanged: a later level rolls back to its own parent epoch, which is never below the epoch the row was filed under.
+    (The two window conditions are hypotheses about the state at the moment of delivery; they are not derived from the
+    chain here.  Offered while the client sits on a sibling that loses afterwards, the row is invalidated:
+    `C02_history_full_false_epoch_tag`.) -/
+theorem late_message_kept_partial (c : Cl) (e : Ev) (mid ts tok : Nat) (Ls : List Level) (Ms : List (List Ev))
+    (sched : List (List Ev × List Ev)) (nx : Nat)
+    (hg : c.hasGroup = true) (ha : c.g.active = true) (hr : 1 ≤ c.retention) (hsec : SecretsOK c.g) (hbelow : Below c)
+    (hn : c.g.recNid = c.g.nid) (hu : Uniq c.msgs)
+    (hk : e.kind = .app mid ts tok) (htag : e.tag = c.g.recNid)
+    (hopen : outerOpens (ensureSecret c.g) e = true) (hle : epochOf e.path ≤ epochOf c.g.path)
+    (hpast : epochOf e.path < epochOf c.g.path → c.g.past.contains e.path = true)
+    (hf : e.sender ≠ c.id) (hc : e.cipher ∉ c.g.consumed) (hnb : getRec c e.n = none)
+    (hch : ChainEv c.id (core c.g) Ls) (hms : SlotsEv c.id (core c.g) Ls Ms)
+    (hfresh : ∀ x ∈ evs Ls ++ Ms.flatten, getRec c x.n = none ∧ x.cipher ∉ c.g.consumed)
+    (hdist : ∀ x ∈ evs Ls ++ Ms.flatten, x.n ≠ e.n ∧ x.cipher ≠ e.cipher)
+    (hmid : ∀ x ∈ Ms.flatten, appMid x ≠ some mid)
+    (hw : MLevelWise (evs Ls ++ Ms.flatten) c.g.path Ls Ms sched) :
+    (run nx c (e :: flat sched)).g.path = c.g.path ++ Ls.map (·.1.cipher) ∧
+    (run nx c (e :: flat sched)).msgs.filter (·.mid == mid) =
+      [{ mid := mid, author := e.sender, state := 1, epoch := epochOf c.g.path, wrapper := e.n, msgTs := ts, tok := tok }] ∧
+    (∀ k lm M, sched[k]? = some lm → Ms[k]? = some M → ∀ x ∈ lm.2, x ∈ M → ∀ mid' ts' tok', x.kind = .app mid' ts' tok' →
+      (run nx c (e :: flat sched)).msgs.filter (·.mid == mid') =
+        [{ mid := mid', author := x.sender, state := 1, epoch := epochOf c.g.path + k + 1, wrapper := x.n, msgTs := ts', tok := tok' }]) := by
+  have hroutes : routes c e = true := by simp [routes, hg, htag]
+  have hst := deliverN_app_store 3 nx c e mid ts tok (notBlocked_of_none hnb) hroutes ha hopen hk hle hpast hf hc
+  have hs := storeApp_stored c e mid ts tok
+  rw [← hst] at hs
+  change AppStored c e _ (deliver c e nx).1 at hs
+  rw [run_cons]
+  generalize (deliver c e nx).1 = c1 at hs
+  have hfound := findRow_upsert_self { mid := mid, author := e.sender, state := 1, epoch := epochOf c.g.path, wrapper := e.n, msgTs := ts, tok := tok } c.msgs
+  rw [← hs.msgs] at hfound
+  have hmain := messages_on_winning_branch_partial c1 Ls Ms sched nx (hs.hasGroup ▸ hg) (hs.active ▸ ha) (hs.retention ▸ hr)
+    (hs.secretsOK hsec) (hs.ready ⟨hg, ha, hr, hsec, hbelow, hn⟩).below (by rw [hs.recNid, hs.nid]; exact hn)
+    (by rw [hs.msgs]; exact uniq_upsertRow _ _ hu) (by rw [hs.id, hs.core]; exact hch) (by rw [hs.id, hs.core]; exact hms)
+    (hs.keepsFresh _ hfresh hdist) (by rw [hs.path]; exact hw)
+  rw [hs.path] at hmain
+  exact ⟨hmain.1, (hmain.2.2.2 mid hmid).2 _ hfound (Nat.le_refl _), hmain.2.2.1⟩
+
+/-- non-vacuity: X (created in B's state, epoch 2) reaches the receiver only after level 2 (receiver at [2,6], epoch 3; [2] is
+    a retained past state): it is filed under epoch 3 and survives level 3 = {G} and its slot -/
+def cG : Ev := { n := 9, ts := 40, idnum := 1, cipher := 9, sender := 0, path := [2, 6], kind := .commit .selfUpdate [] }
+def mW : Ev := { n := 10, ts := 45, idnum := 10, cipher := 10, sender := 3, path := [2, 6, 9], kind := .app 14 105 9 }
+
+example : (run 0 (run 0 r2 [cB, cC]) (mX :: flat [([cG], [mW])])).msgs.filter (·.mid == 10) =
+    [{ mid := 10, author := 0, state := 1, epoch := 3, wrapper := 3, msgTs := 101, tok := 5 }] := by
+  have hinv : HInv (run 0 r2 [cB, cC]) :=
+    Props.C01Fork.reachable_hinv 2 false 5 [0, 1, 2, 3] [0, 1] 1 [C08.COp.deliver cB 0, C08.COp.deliver cC 0]
+  exact (late_message_kept_partial (run 0 r2 [cB, cC]) mX 10 101 5 [(cG, [cG])] [[mW]] [([cG], [mW])] 0 (by decide) (by decide)
+    (by decide) hinv.sec hinv.below (by decide) (by decide) rfl (by decide) (by decide) (by decide) (by decide) (by decide)
+    (by decide) (by decide)
+    ⟨levelEv_of_dec _ _ _ (by decide) (by decide) (by decide) (by decide) (by decide) (by decide), by decide, by decide, trivial⟩
+    (by decide) (by decide) (by decide) (by decide) (by decide)).2.1
+
+example : (run 0 (run 0 r2 [cB, cC]) (mX :: flat [([cG], [mW])])).msgs.map (fun r => (r.mid, r.state, r.epoch)) =
+    [(10, 1, 3), (14, 1, 4)] := by decide
+
 /-! ### 5. many clients -/
 
 /-- a client with the slots it receives (the messages of the winning branch it did not send itself) and its own schedule -/
